@@ -20,9 +20,9 @@ var RespFields = []Field{
 	{"version", []string{"HTTP/1.1", "HTTP/1.0", "HTTP/1.2", "HTTP/1.10", "HTTP/2.0", "HTTP/0.9", "HTTP/1.;", "HTTP/1", "HTTX/1.1"}},
 	{"status", []string{"101", "0101", "1e1", "0:1", "9;", "18446744073709551717", "100", "200", "404", "", "1010", "10"}},
 	{"reason", []string{"Switching Protocols", "empty-with-space", "none", "Weird  Reason 101"}},
-	{"upgrade", []string{"canon", "absent", "lower", "upper", "padded", "case", "wrong", "dup-same", "triple-same", "dup-conflict"}},
-	{"connection", []string{"canon", "absent", "lower", "upper", "padded", "case", "wrong", "dup-same", "triple-same", "dup-conflict", "list"}},
-	{"accept", []string{"canon", "absent", "lower", "upper", "padded", "otherkey", "27", "29", "case", "dup-same", "triple-same", "dup-conflict", "lastchar", "firstchar"}},
+	{"upgrade", []string{"canon", "absent", "lower", "upper", "mixed", "padded", "case", "wrong", "dup-same", "triple-same", "dup-conflict"}},
+	{"connection", []string{"canon", "absent", "lower", "upper", "mixed", "padded", "case", "wrong", "dup-same", "triple-same", "dup-conflict", "list"}},
+	{"accept", []string{"canon", "absent", "lower", "upper", "mixed", "padded", "otherkey", "27", "29", "case", "dup-same", "triple-same", "dup-conflict", "lastchar", "firstchar"}},
 	{"protocol", []string{"absent", "a", "b", "c", "empty"}},
 	{"extensions", []string{"absent", "x", "x;p=1", "z", "malformed", "x, z", "x, y", "two-headers", "x;p=1;r=22, y", "x; a01=1; a02=2; a03=3; a04=4; a05=5; a06=6; a07=7; a08=8; a09=9; a10=10; a11=11; a12=12, y"}},
 	{"extra", []string{"none", "before", "between", "after"}},
